@@ -7,6 +7,7 @@
 package simnet
 
 import (
+	"errors"
 	"io"
 	"net"
 	"os"
@@ -246,6 +247,7 @@ type Listener struct {
 	Closed           bool
 	Accepted, Closes int
 	Conns            []*Conn // server ends handed out by Accept
+	OwnCloseError    bool    // Accept on the closed listener returns an error of its own instead of net.ErrClosed
 }
 
 func NewListener(name string) *Listener { return &Listener{Name: name} }
@@ -262,9 +264,14 @@ func (l *Listener) Dial(name string) (*Conn, error) {
 	return c, nil
 }
 
+var errListenerClosed = errors.New("simnet: listener shut down")
+
 func (l *Listener) Accept() (net.Conn, error) {
 	vsched.PointO(l.Name+".Accept", l, func() bool { return len(l.queue) > 0 || l.Closed })
 	if l.Closed {
+		if l.OwnCloseError {
+			return nil, errListenerClosed // a wrapper listener's own error: not net.ErrClosed, and wrapping nothing
+		}
 		return nil, net.ErrClosed
 	}
 	vsched.Acquire(l)
